@@ -93,6 +93,16 @@ RULE = (
     "16-byte blocks without CR; the hash returned by that call is not judged for the file; right "
     "after it State.get without / with info, get_many, hash_file, build+update+md5 and one drawn "
     "probe route, and every later query of the history, are judged as ever), "
+    "size_only_history (one regular file or link target goes through a drawn chain of 2-4 sizes from "
+    "{0 (weighted), 1, 4, 5, 16, 17, 48, 512, 513, 4096, 70000}: the first by an ordinary write, every "
+    "further one by a rewrite IN PLACE (same inode) with a DIFFERENT size after which the pre-mutation "
+    "mtime_ns is restored exactly (rsync -t / tar / touch -r) - of (inode, mtime, size) only the size "
+    "changes: empty -> non-empty, non-empty -> empty, growing, shrinking; before each such rewrite the "
+    "tool hashes the file, EMPTY ones included, through a drawn state-backed route from {hash_file "
+    "without / with info, _get_hashes with fs / walk-time infos, build(file), build(dir), "
+    "build_entries, index update+md5}; after it State.get without / with info, get_many, hash_file, "
+    "_get_hashes and one drawn probe route are judged by the ordinary oracle; a drawn size equal to "
+    "the current one is bumped by 3 - rewrites that keep all three of inode, mtime, size stay outside), "
     "planted foreign rows with a matching token under a drawn algorithm name from {md5, "
     "md5-dos2unix, sha256, sha1, blake2b} (version HASH_VERSION+k with a placeholder value, "
     "version-less legacy rows and current-version rows with honest values; optionally looked up at "
@@ -105,7 +115,8 @@ RULE = (
     "mutated earlier in the history, or a batch >= 1000, or an update() after a mutation, or a "
     "mutation that fired during a batch call or at the open() of a hashing call, or >= 2 files with distinct contents hashed in the "
     "pool, or a recorded batch with a vanished item, or a mutation of a checked-out workspace, or a "
-    "second checkout that re-created a file whose hash changed; "
+    "second checkout that re-created a file whose hash changed, or a size-only mutation (same inode, "
+    "same mtime_ns, other size) of a file hashed through the state just before; "
     "distinct "
     "= SHA-1 of the trace JSON."
 )
@@ -113,6 +124,11 @@ ASSUMPTIONS = [
     "premise enforced by the harness: after every content mutation the (inode, mtime, size) triple "
     "of the file whose bytes are hashed (for a symlink: its target), as fs.info reports it, differs "
     "from every triple that file held before; link targets are never deleted (no broken links)",
+    "size_only_history: restoring the old mtime after an in-place rewrite of ANOTHER size is inside "
+    "the quantifier (the history changes the file's size); the harness clock is asked for 'keep' and "
+    "only moves on (label size-only:restepped) if that very (inode, mtime, size) triple was held by "
+    "the file earlier in the history; grounds on the pinned code: the validity token folds the size "
+    "in (state._checksum over ino, mtime, size), for size 0 as for any other",
     "caller-supplied stat info is always read at the instant of the call (never older)",
     "no mutation happens between a library call's open() of a file and the end of its read of that "
     "file (a mutation between two read() calls is outside the domain); a mutation between the "
@@ -237,6 +253,12 @@ ao_pre_s = st.sampled_from([None, None, None, 100, MIB - 1, MIB - 1, MIB - 16, M
 ao_mut_s = st.sampled_from(["append", "append", "append", "append", "truncate", "rewrite", "replace+",
                             "replace+", "replace-", "replace="])
 ao_n_s = st.sampled_from([1, 1, 2, 15, 16, 17, 512, 513, 4096, 4097, 70_000])
+# size-only histories: the chain of sizes one file goes through (empty files weigh heavily), and the
+# state-backed route by which the tool hashes the file before each size-only rewrite (probe names)
+so_size_s = st.sampled_from([0, 0, 0, 0, 1, 1, 4, 4, 5, 16, 17, 48, 512, 513, 4096, 70_000])
+so_sizes_s = st.lists(so_size_s, min_size=2, max_size=4)
+so_route_s = st.sampled_from(["hash_file", "hash_file", "hash_file+info", "get_hashes",
+                              "get_hashes+walk", "build_file", "build_dir", "build_entries", "index"])
 pos_s = st.lists(
     st.one_of(st.sampled_from([0, 1, 997, 998, 999, 1000, 1001, 1997, 1998, 1999, 2497, 2499]),
               st.integers(0, 3000)),
@@ -1519,6 +1541,52 @@ class C13Machine(TraceMachine):
             # cheap; two histories in three - the others go on querying the large file)
             self.do_sized(target, "set", 48, ["d", 2500])
             self.r_get(p, False)
+
+    # ---- size-only histories: rewritten in place, other size, the old mtime restored ---------------
+    @rule(slot=qslot_s, sizes=so_sizes_s, route=so_route_s, algo=algo_s,
+          infos=st.sampled_from(["none", "none", "all"]), probe=probe_s, palgo=algo_s)
+    @traced
+    def size_only_history(self, slot, sizes, route, algo, infos, probe, palgo):
+        """One file goes through a chain of sizes (EMPTY included: growing from empty, shrinking to
+        empty, growing, shrinking). The first size is given by an ordinary write (clock moved on);
+        every further one by a rewrite IN PLACE (same inode) after which the mtime the file had
+        before is restored to the nanosecond (rsync -t, tar extraction, touch -r): of (inode, mtime,
+        size) only the SIZE changes. Before every such rewrite the tool hashes the file honestly
+        through a drawn state-backed route (an entry for the pre-mutation triple exists, also for
+        the empty file); after it every lookup route is judged by the ordinary oracle."""
+        p = self.qpath(slot)
+        if p is None:
+            return
+        target = os.path.realpath(p)      # the file whose bytes are hashed (p may be a symlink)
+        name = ALGOS[algo]
+        self.do_sized(target, "set", sizes[0], ["d", 1500])
+        for n in sizes[1:]:
+            size0 = os.path.getsize(target)
+            if n == size0:                # a mutation that keeps all three stays outside
+                n = size0 + 3
+            # an earlier honest run of the tool recorded the file as it is now
+            self.probe(p, route, algo)
+            if not size0:
+                self.labels.add("size-only:empty-file-hashed-through-state:" + route)
+            before, prev = self.triple(target), os.stat(target).st_mtime_ns
+            self.do_sized(target, "set", n, ["keep"])
+            after = self.triple(target)
+            if os.stat(target).st_mtime_ns == prev and after[:2] == before[:2]:
+                if after[2] == before[2]:
+                    raise HarnessError("size-only mutation left the size unchanged")
+                self.labels.add("mut:size-only:" + ("empty->nonempty" if not size0 else
+                                                    "nonempty->empty" if not n else
+                                                    "grow" if n > size0 else "shrink"))
+                self.nt.add("size-only-mutation")
+            else:   # that triple was held before: the harness clock moved on (premise)
+                self.labels.add("size-only:restepped(triple-held-before)")
+            self.r_get(p, False)
+            others = [q for q in self.live_files() if q != p]
+            self.r_get_many(others[:1] + [p] + others[1:3], infos)
+            self.r_get(p, True)
+            self.r_hash_file(p, name, infos == "all")
+            self.r_get_hashes([p] + others[:1], name)
+        self.probe(p, probe, palgo)
 
     # ---- symlinked entries: the bytes (and the token) are those of the link's target -----------
     @rule(link=st.integers(0, 1), how=st.sampled_from(["in_place", "in_place", "replace"]),
